@@ -45,7 +45,8 @@ PROPS = {
     "C19": {
         "claim": "Refinement theorem: the heap-of-maps model of graph.go (aliasing between a graph and its reversed view, fresh maps on Copy) run on any history respecting AddEdge's precondition is observationally equal, on every live handle, to the plain adjacency specification. Tied to the code by differential histories over several live handles, comparing raw maps and the public observers after every few operations.",
         "note": "Go maps are modelled as association lists; panics on AddEdge with an absent endpoint are compared model-vs-code but outside the specification.",
-        "theorems": [],
+        "theorems": ["ArgMapper.C19.spec_wf", "ArgMapper.C19.refines", "ArgMapper.C19.mirror", "ArgMapper.C19.reverse_reverse",
+                     "ArgMapper.C19.copy_independent", "ArgMapper.C19.counterexample_reverse_nil"],
         "modules": ["ArgMapper.Props.C19"],
         "facts": {"fixedReverse": "true"},
         "rule": "gops: >=4 operations and >=1 observation of all live handles.",
